@@ -36,6 +36,8 @@ structure Line where
   mode : Mode := .drain
   cons : Nat := 1
   shots : Nat := 0
+  idle : Bool := false
+  gate : Nat := 0
 
 def parseLine (kv : List (String × String)) : Option Line := do
   let kind ← parseKind (getS kv "kind")
@@ -48,7 +50,8 @@ def parseLine (kv : List (String × String)) : Option Line := do
   let shots := (getN? kv "shots").getD 0
   let pad := (getN? kv "pad").getD 0
   pure { inp := { kind, preload := getS kv "preload" == "1", b := ⟨limit, passes⟩, cancelAt := if cap = 0 then none else some cap },
-         n, cell := { limit, passes, n, cap, pad }, mode, cons, shots }
+         n, cell := { limit, passes, n, cap, pad }, mode, cons, shots,
+         idle := getS kv "idle" == "1", gate := (getN? kv "gate").getD 0 }
 
 def classOf : RunRes → Spec.C08.RunClass
   | .nil => .nil | .canceled => .canceled | .errLimit => .limit | .errPasses => .passes
@@ -117,12 +120,15 @@ def modelStall (l : Line) (o : Spec.C08.StallObs) : String :=
     | none => if o.left ≤ cc then o.left else cc
   s!"delivered={d} cut={b01 (!self)} ret=1 run={run} left={left} end=closed seq=ok"
 
-def modelEngine (l : Line) : String :=
-  let w := match Spec.C08.engWant l.cell l.shots with | some w => toString w | none => "unbounded"
+/-- mode engine; `gated` (did the gate operation fall inside `Run` and see the cancel) depends on where the k-th file
+operation falls: echoed -/
+def modelEngine (l : Line) (ikv : List (String × String) := []) : String :=
+  let w := match Spec.C08.engWant l.cell l.shots l.idle with | some w => toString w | none => "unbounded"
   let complete := match Spec.C08.expected l.cell.limit l.cell.passes l.cell.n with
-    | some m => decide (l.shots = 0 ∨ m ≤ l.shots)
+    | some m => decide (!l.idle ∧ (l.shots = 0 ∨ m ≤ l.shots))
     | none => false
-  s!"shots={w} err=nil wait=1 seq={seqField l.cons complete}"
+  let g := if l.gate = 0 then "" else s!" gated={getS ikv "gated" "0"}"
+  s!"shots={w} err=nil wait=1 seq={seqField l.cons complete}{g}"
 
 def handle : Handler := fun input impl =>
   match parseLine (parseKV input) with
@@ -156,9 +162,9 @@ def handle : Handler := fun input impl =>
         | none => ("-", s!"fail:crash:{impl.take 120}")
         | some o => (modelStall l o, Spec.C08.stallJudge l.cell l.inp.kind.chanCap o)
       | .engine =>
-        if l.shots = 0 ∧ !Spec.C08.bounded l.cell then ("-", "skip:nothing-ends-this-run") else
+        if l.shots = 0 ∧ !l.idle ∧ !Spec.C08.bounded l.cell then ("-", "skip:nothing-ends-this-run") else
         match parseEng ikv with
         | none => (modelEngine l, s!"fail:crash:{impl.take 120}")
-        | some o => (modelEngine l, Spec.C08.engJudge l.cell l.shots o)
+        | some o => (modelEngine l ikv, Spec.C08.engJudge l.cell l.shots o l.idle)
 
 end Pandora.Drv.C08
